@@ -43,6 +43,7 @@ struct Cfg
   void * handle = nullptr;
   std::map<std::string, fn2> tab;
   int sqrt_algo = -1; // measured fingerprint: 0 = std::sqrt based, 1 = abacus
+  bool fastmath = false; // built with -ffast-math: non-finite floating inputs are outside what the build promises to handle
   bool constexpr_sqrt = false;
   long cplusplus = 0;
   };
@@ -204,6 +205,10 @@ int64_t random_of_type(Rng & r, const IntType & t); // boundary-heavy value of t
 void judge_mul_const(Ctx & c, int64_t a, int64_t which, int64_t);
 void judge_div_const(Ctx & c, int64_t a, int64_t which, int64_t);
 size_t const_scalar_count();
+// stateful shapes (props_diff.cc): index 0..7 = add/sub/mul/div (right, left operand modified), 8.. = unary shapes
+void judge_reassign(Ctx & c, int64_t a, int64_t b, int64_t which);
+size_t reassign_count();
+void reassign_setup();
 i128 const_scalar_value(size_t which);
 
 // floating helpers
